@@ -406,8 +406,8 @@ pub fn run_matrix(r: &Report) {
     let thorough = r.tier().is_thorough();
     let entries = crate::c01static::all_entries();
     let it = vec![types::nat(Native::Int), types::nat(Native::Text)];
-    // thorough partners: twelve natives (one or more per encoding class)
-    let it4: Vec<Type> = [Native::Int, Native::Text, Native::Varint, Native::Boolean, Native::Blob, Native::Uuid, Native::Double, Native::Timestamp, Native::Duration, Native::Counter, Native::Inet, Native::Decimal].iter().map(|n| types::nat(*n)).collect();
+    // thorough partners: all twenty natives
+    let it4: Vec<Type> = types::natives();
     // column types: natives + all of depth 1 + depth 2 (thorough: over every depth-1 type; quick: over the
     // depth-1 types built from int/text/blob/boolean)
     let d1 = types::depth1();
@@ -855,7 +855,7 @@ fn check_too_many(r: &Report) {
 
 pub fn run_rollback(r: &Report) {
     let kinds = failure_kinds();
-    let pre = prefixes(if r.tier().is_thorough() { 5 } else { 3 });
+    let pre = prefixes(if r.tier().is_thorough() { 6 } else { 3 });
     r.counters.add("prefixes", pre.len() as u64);
     r.counters.add("failure_kinds", kinds.len() as u64 + 1);
     let mut work: Vec<(usize, usize)> = Vec::new();
@@ -893,7 +893,7 @@ pub fn run_rollback(r: &Report) {
         }
     }
     check_too_many(r);
-    r.set_rule("E-ENUM rollback. Every sequence of 0..3 (thorough: 0..5) good values over {int, text, list<int>, null, not-set, empty blob} (259 / 9331 prefixes) x every failure kind (61: wrong native type x8 incl. through &T, Box, MaybeUnset, SecretBox; three-level nesting list<tuple<int,udt>>; a map's 2nd value whose list's 2nd element fails; typed BTreeMap's last value; inner vector dimension; set bound to a map column; dynamic tuples longer than the CQL tuple whose surplus elements are null (all-null, trailing-null, mixed; top level, Option-wrapped, as list element, map value, UDT field); dynamic UDT values naming an unknown field whose value is null (top level and nested); sequences of length N+65536 / N+131072 / 65536 for N=0 bound to vector<T,N> (fixed and variable width; Vec, [T], CqlValue::Vector, nested); 2nd element/key/value/field failing in list, set, list<list>, map, fixed and variable vector, tuple, UDT, list<UDT>; wrong vector dimension; tuple too long x2; unknown UDT field; UDT name mismatch; empty into non-emptiable x2; value overflow x3; simulated size overflow after 0 / 33+nested bytes, inside list and tuple): the list is bytewise, count-wise and cell-wise identical after the failed add, the error has the expected root cause, and a following good value lands as the reference encodes it; every ordered pair of failures in a row; the 65536th value (good or failing) on a full list. distinct_nontrivial = cases where the failure happened, state was verified intact and the next value verified.");
+    r.set_rule("E-ENUM rollback. Every sequence of 0..3 (thorough: 0..6) good values over {int, text, list<int>, null, not-set, empty blob} (259 / 55987 prefixes) x every failure kind (61: wrong native type x8 incl. through &T, Box, MaybeUnset, SecretBox; three-level nesting list<tuple<int,udt>>; a map's 2nd value whose list's 2nd element fails; typed BTreeMap's last value; inner vector dimension; set bound to a map column; dynamic tuples longer than the CQL tuple whose surplus elements are null (all-null, trailing-null, mixed; top level, Option-wrapped, as list element, map value, UDT field); dynamic UDT values naming an unknown field whose value is null (top level and nested); sequences of length N+65536 / N+131072 / 65536 for N=0 bound to vector<T,N> (fixed and variable width; Vec, [T], CqlValue::Vector, nested); 2nd element/key/value/field failing in list, set, list<list>, map, fixed and variable vector, tuple, UDT, list<UDT>; wrong vector dimension; tuple too long x2; unknown UDT field; UDT name mismatch; empty into non-emptiable x2; value overflow x3; simulated size overflow after 0 / 33+nested bytes, inside list and tuple): the list is bytewise, count-wise and cell-wise identical after the failed add, the error has the expected root cause, and a following good value lands as the reference encodes it; every ordered pair of failures in a row; the 65536th value (good or failing) on a full list. distinct_nontrivial = cases where the failure happened, state was verified intact and the next value verified.");
     r.set_exhaustive(true);
     r.assume("a > 2 GiB value cannot be materialised; the size-overflow path is simulated by a SerializeValue impl that appends bytes (directly and through nested sub-writers) and then returns an error");
     r.sample(json!({"prefix": ["int 1", "list<int> [1,2]"], "failing": "vector-variable-2nd-element", "then": "int 0x11223344"}));
